@@ -319,8 +319,8 @@ func (m *Machine) settle(what string) *Snap {
 	m.snap = s
 	if err != nil {
 		if se, ok := err.(*StuckError); ok && se.Starved {
-			m.w.Stats.hit("inconclusive:process-starved")
-			m.t.Skip("the process was starved: no verdict for this case")
+			m.w.Stats.hit("inconclusive:no-verdict(starved-or-stalled-loop)")
+			m.t.Skip("no verdict for this case: " + se.Error())
 		}
 		m.detail = err.Error()
 		m.fail("*", "after %s: not quiescent, something that must happen did not happen: %s", what, m.stuckSummary(err))
